@@ -214,11 +214,13 @@ EXT_NS = {
 }
 
 
-def vocab_doc(rng, fmt=None, nentries=None, big=False):
-    """a well-formed, reference-free feed over core + extension vocabulary; returns str"""
+def vocab_doc(rng, fmt=None, nentries=None, big=False, pad_unit="padding ", pad_reps=1200, texts=None, meta_between=False):
+    """a well-formed, reference-free feed over core + extension vocabulary; returns str.
+    big: every entry carries a comment of pad_reps x pad_unit; texts: the pool the text values are drawn from (default: ASCII);
+    meta_between: feed-level metadata elements also BETWEEN and AFTER the entries (RSS 2.0 and Atom permit any order)"""
     fmt = fmt or rng.choice(["rss20", "atom10", "rss10"])
     n = rng.randint(1, 5) if nentries is None else nentries
-    t = lambda: rng.choice(PLAIN)
+    t = lambda: rng.choice(texts or PLAIN)
     date8, date3 = d822((rand_instant(rng), 0)), d3339((rand_instant(rng), 0))
     nsdecl = "".join(' xmlns:%s="%s"' % kv for kv in EXT_NS.items())
     def ext_feed():
@@ -231,7 +233,20 @@ def vocab_doc(rng, fmt=None, nentries=None, big=False):
                            '<media:content url="http://example.org/m%d.mp3" type="audio/mpeg"/>' % i, '<media:thumbnail url="http://example.org/t%d.png"/>' % i,
                            "<georss:point>45.256 -71.92</georss:point>", "<media:title>%s</media:title>" % t(), "<itunes:keywords>a, b, c</itunes:keywords>",
                            '<media:credit role="author">%s</media:credit>' % t(), "<content:encoded>%s</content:encoded>" % t()], rng.randint(0, 4))
-    pad = ("<!-- %s -->" % ("padding " * 1200)) if big else ""
+    pad = ("<!-- %s -->" % (pad_unit * pad_reps)) if big else ""
+
+    def between(seq, fmtname):
+        if not meta_between:
+            return "\n".join(seq)
+        pool = {"rss20": ["<copyright>(c) %s</copyright>" % t(), "<managingEditor>editor@example.org (%s)</managingEditor>" % t().strip(), "<pubDate>%s</pubDate>" % date8, "<dc:rights>%s</dc:rights>" % t(),
+                          "<description>late %s</description>" % t(), "<generator>g %s</generator>" % t(), "<language>en</language>"],
+                "atom10": ["<rights>(c) %s</rights>" % t(), "<subtitle>late %s</subtitle>" % t(), "<updated>%s</updated>" % date3, "<generator>g</generator>", "<id>tag:example.org,2005:late</id>",
+                           "<author><name>%s</name></author>" % t().strip()]}[fmtname]
+        out = []
+        for x in seq:
+            out.append(x)
+            out += rng.sample(pool, rng.randint(0, 2))
+        return "\n".join(out)
     if fmt == "rss20":
         items = []
         for i in range(n):
@@ -240,7 +255,7 @@ def vocab_doc(rng, fmt=None, nentries=None, big=False):
                 t(), i, i, t(), i, date8, t(), t(), '<enclosure url="http://example.org/a%d.mp3" type="audio/mpeg" length="1" foo:url="http://mirror.example.net/a" foo:type="x/y"/>' % i if xattr else "",
                 "".join(ext_entry(i)), pad))
         return '<?xml version="1.0" encoding="utf-8"?>\n<rss version="2.0"%s>\n<channel><title>%s</title><link>http://example.org/</link><description>%s</description>%s\n%s\n</channel>\n</rss>' % (
-            nsdecl, t(), t(), "".join(ext_feed()), "\n".join(items))
+            nsdecl, t(), t(), "".join(ext_feed()), between(items, "rss20"))
     if fmt == "rss10":
         items = []
         for i in range(n):
@@ -254,4 +269,4 @@ def vocab_doc(rng, fmt=None, nentries=None, big=False):
             t(), i, i, ' foo:href="http://mirror.example.net/e/%d"' % i if xattr else "", i, date3, t(), t(), t().replace('"', "").replace("\n", " ").replace("\t", " "),
             ' foo:term="n-%d"' % i if xattr else "", "".join(ext_entry(i)), pad))
     return '<?xml version="1.0" encoding="utf-8"?>\n<feed xmlns="http://www.w3.org/2005/Atom"%s>\n<title>%s</title><link href="http://example.org/"/><id>tag:example.org,2005:feed</id><updated>%s</updated><subtitle>%s</subtitle>%s\n%s\n</feed>' % (
-        nsdecl, t(), date3, t(), "".join(ext_feed()), "\n".join(entries))
+        nsdecl, t(), date3, t(), "".join(ext_feed()), between(entries, "atom10"))
